@@ -30,7 +30,7 @@ def _names(s):
     if s.get('axis_param') and s['ndef'] >= 1 and s['npos'] >= 2:
         names = names[:-1] + ['axis']
     return names
-SCALARS = [0, 1, 2, 3, 5, 13, 's', 't', None]
+SCALARS = [0, 1, 2, 3, 5, 13, 's', 't', None, -1, -2]      # hash(-1) == hash(-2) in CPython: distinct arguments, equal hashes
 CONTAINERS = [[1, 2], [], {'k': [1]}, [[3]], {'p': 1, 'q': 2}]
 TRY_VALUES = ['none', 'nan', 'zero', 'false', 'true', 'list', 'dict']
 POOL = 8
@@ -96,7 +96,7 @@ def generate(st):
         if g.random() < cfg['p13']:
             return 13
         if cfg.get('stress'):
-            return g.choice([1, 1, 2])
+            return g.choice([1, 1, 2, -1, -2])
         return g.choice([v for v in SCALARS if v != 13])
 
     def gen_dec():
